@@ -547,6 +547,40 @@ class PathEnum:
         excs = self._note_calls(value, q, fr)
         return [(q, value, fr)] + [(x, _UNKNOWN, fr) for x in excs]
 
+    def _only_truth_tested(self, fr, name):
+        """every read of the local `name` in the function of frame `fr` stands in a truth context (if / while / conditional
+        expression test, `not`, and / or inside such a test, bool(...)) and the name is bound exactly once"""
+        fn = getattr(getattr(fr, 'func', None), 'node', None)
+        if fn is None:
+            return False
+        stores = loads = 0
+        for n in ast.walk(fn):
+            if not (isinstance(n, ast.Name) and n.id == name):
+                continue
+            if isinstance(n.ctx, ast.Store):
+                stores += 1
+                continue
+            loads += 1
+            cur = n
+            ok = False
+            while True:
+                par = getattr(cur, '_parent', None)
+                if par is None:
+                    break
+                if isinstance(par, (ast.If, ast.While, ast.IfExp)) and par.test is cur:
+                    ok = True
+                    break
+                if isinstance(par, ast.BoolOp) or (isinstance(par, ast.UnaryOp) and isinstance(par.op, ast.Not)):
+                    cur = par
+                    continue
+                if isinstance(par, ast.Call) and isinstance(par.func, ast.Name) and par.func.id == 'bool' and len(par.args) == 1:
+                    ok = True
+                    break
+                break
+            if not ok:
+                return False
+        return stores == 1 and loads > 0
+
     def _deep_inlinable(self, value, p, fr):
         """the first (evaluation order) inlinable call nested at depth >= 2 inside the arguments of `value`"""
         def rec(n, depth):
@@ -718,6 +752,23 @@ class PathEnum:
                 targets = [s.target]
             else:
                 targets = s.targets
+            # `flag = self.predicate()` / `flag = bool(self.predicate())` where the flag is only ever tested for truth: the outcome of
+            # the predicate is decided here, path by path, exactly as if the call stood in the condition that later tests the flag
+            inner, wrapped = s.value, False
+            if isinstance(inner, ast.Call) and isinstance(inner.func, ast.Name) and inner.func.id == 'bool' and len(inner.args) == 1 and not inner.keywords:
+                inner, wrapped = inner.args[0], True
+            if len(targets) == 1 and isinstance(targets[0], ast.Name) and isinstance(inner, ast.Call) and fr.depth < self.max_depth \
+                    and self.resolver(inner, fr, p) is not None and (wrapped or self._only_truth_tested(fr, targets[0].id)):
+                outs = []
+                for q, t in self.cond_paths(inner, p, fr):
+                    if t is None:
+                        outs.append(q)
+                        continue
+                    c = ast.copy_location(ast.Constant(value=bool(t)), s)
+                    self._assign_name(targets[0].id, c, fr, q, fr)
+                    q.ev.append(Ev('assign', s, fr, targets[0], (c, fr)))
+                    outs.append(q)
+                return outs
             outs = []
             for q, ret, rfr in self.value_paths(s.value, p, fr):
                 if q.exit is not None:
